@@ -234,7 +234,7 @@ def r04_2b(ctx, run, rule='R04.2'):
         got = arms.get(k)
         d = f'arm[{k[0]}]'
         if not got:
-            run.violation(rule, b.path, d, 'no arm compares two entries of this kind (anchor lost)', loc)
+            run.undecided(rule, b.path, d, 'no arm comparing two entries of this kind was recognised (anchor lost): not decided', loc)
             continue
         ok = False
         why = ''
